@@ -433,7 +433,8 @@ class dictable(Dict):
                     raise ValueError('no %s found'%key)
                 item = items[key]
                 if len(item)>1:
-                    item = list(set(item))
+                    nans = [i for i in item if _nan(i)] ## distinct nan objects are distinct members of a set
+                    item = list(set([i for i in item if not _nan(i)])) + nans[:1]
                     if len(item)>1:
                         raise ValueError('multiple %s found %s'%(key, item))
                 return item[0]
